@@ -18,6 +18,7 @@ func (c *Ctx) Eff() *Effects {
 	if effCache == nil {
 		effCache = NewEffects(c.W)
 	}
+
 	return effCache
 }
 
